@@ -1,5 +1,8 @@
 """C17 - rejection, mask interpolation and sky masking act on exactly the intended pixels.
 
+Every case is a short history of calls on the SAME caller arrays; the reference of every step is computed from pristine
+copies, and a byte copy of each argument array is compared after each call (Guard).
+
 Events : djs_reject -> (mask, qdone) over 1-3 step histories (outmask fed back, last step repeated);
          djs_maskinterp1 / djs_maskinterp (1-3-D, every axis, index or x); aesthetics;
          djs_median(width, boundary='reflect'); skymask.
@@ -62,6 +65,35 @@ def mask_pattern(rng, n, p_bad=None):
     return b
 
 
+class Guard:
+    """Byte copies of the caller's argument arrays; check() asserts the call wrote to none of them.
+
+    ``only`` restricts the comparison to the selected elements (aesthetics: the property itself allows flux to
+    change where the inverse variance is zero, so only the other pixels of the caller's flux are asserted)."""
+
+    def __init__(self, out, fn):
+        self.out, self.fn, self.items = out, fn, []
+
+    def add(self, name, arr, only=None):
+        if isinstance(arr, np.ndarray):
+            self.items.append((name, arr, arr.copy(), only))
+        return self
+
+    def check(self, **detail):
+        for name, arr, snap, only in self.items:
+            a, b = (arr, snap) if only is None else (arr[only], snap[only])
+            same = arr.dtype == snap.dtype and arr.shape == snap.shape and a.tobytes() == b.tobytes()
+            where = None
+            if not same and arr.shape == snap.shape:
+                with np.errstate(all='ignore'):
+                    diff = ~((arr == snap) | ((arr != arr) & (snap != snap)))
+                where = np.argwhere(diff if only is None else diff & only)[:10]
+            self.out.expect(same, self.fn + '-input-modified',
+                            "the caller's %s array was written to by %s (arguments are inputs; results are returned)"
+                            % (name, self.fn), where=where, **detail)
+            self.out.count('inputs_verified_unmodified')
+
+
 class C17(Check):
     ID = 'C17'
     MIN_NONTRIVIAL = 1000
@@ -76,10 +108,19 @@ class C17(Check):
             'djs_median(boundary=reflect) odd widths 1-21 on 1-D and 2-D arrays with every extent >= (width+1)/2, tie-rich '
             'values.  skymask on 1-4 rows x 1-200 pixels, int16/int32/int64/uint64 masks with BADSKYCHI/REDMONSTER next to '
             'distractor bits (BRIGHTSKY, bit 26, 29, sign bit, bit 63), flags at row ends, ngrow 0-8, ormask=None.  '
+            'Every case is a short history on the SAME caller arrays (maskinterp: 1-3 calls with other masks / other axes on one '
+            'y and x; reject: masks handed back as the returned object itself, or one array used as inmask and first outmask; '
+            'aesthetics: 1-3 methods on one flux/invvar; median: 1-2 widths on one array; skymask: 1-3 ngrow on one invvar/ormask), '
+            'every step compared with the reference computed from the ORIGINAL values, and a byte copy of every argument array is '
+            'compared after each call.  '
             'Non-trivial: reject history with >= 1 point rejected by a limit and >= 1 kept; interpolation with >= 1 masked '
             'sample between two good neighbours; aesthetics with good and bad pixels; median whose output differs from its '
             'input; skymask with >= 1 flagged and >= 1 surviving pixel.  Distinct by hash of the materialised input.')
     ASSUMPTIONS = [
+        'arguments are inputs: no anchored function may write to an argument array (the IDL originals return new arrays; clause '
+        '*-input-modified, byte comparison).  One carve-out, because the property text itself says so: aesthetics may change the '
+        'caller\'s flux where invvar == 0, so only the pixels with invvar != 0 (and the invvar array) are guarded there; the '
+        'history form (later results on the same arrays equal the reference of the original data) is asserted for all functions',
         'limits are decided on the exact residual data-model in long double; comparisons within 1e-9 relative of a limit are '
         'undecided (code needs <= 3 roundings, 3e-16)',
         'grow: neighbours are added around points rejected by a residual limit in the same call (IDL djs_reject semantics), '
@@ -105,6 +146,9 @@ class C17(Check):
         'median_reflected_windows', 'median_2d_cases',
         'skymask_flagged_pixels', 'skymask_grown_pixels', 'skymask_signed_dtype_cases', 'skymask_row_end_flags',
         'skymask_ormask_none', 'skymask_distractor_only_pixels',
+        'inputs_verified_unmodified', 'reject_aliased_mask_reuse_steps', 'reject_outmask_is_inmask_steps',
+        'interp_history_steps_on_same_array', 'interp_history_steps_nd', 'aesthetics_history_steps_on_same_array',
+        'median_history_steps_on_same_array', 'skymask_history_steps_on_same_array',
     )
 
     # ---------------------------------------------------------------- setup
@@ -260,6 +304,9 @@ class C17(Check):
         case['outmask'] = None
         if rng.random() < (0.9 if cls == 'reject_small_history' else 0.5):
             case['outmask'] = [0 if rng.random() < rng.choice([0.1, 0.3]) else 1 for _ in range(n)]
+        # how the masks travel through the history: fresh copies, the returned array itself handed back as outmask
+        # (as iterfit does), or one array serving as inmask and as the first outmask
+        case['alias'] = rng.choice(['copy', 'reuse', 'reuse', 'outmask_is_inmask'])
         return case
 
     def gen_interp(self, cls, rng):
@@ -278,12 +325,6 @@ class C17(Check):
         if rng.random() < 0.2:
             y = np.round(y / scale)                     # ties, exact zeros
         # masks line by line along the interpolation axis so that each line gets its own hostile pattern
-        L = shape[npaxis]
-        bad = np.zeros(shape, dtype=bool)
-        bm = np.moveaxis(bad, npaxis, -1)
-        for idx in np.ndindex(bm.shape[:-1]):
-            bm[idx] = mask_pattern(rng, L)
-        bad = bad.ravel()
         mdt = rng.choice(['bool', 'int32', 'uint8', 'int64', 'int16'])
         if mdt == 'bool':
             mvals = [1]
@@ -291,10 +332,26 @@ class C17(Check):
             mvals = [1, 2, 255]
         else:
             mvals = [1, 2, 255, -1, 4096]
-        mask = [rng.choice(mvals) if b else 0 for b in bad.tolist()]
+
+        def one_mask(npax):
+            b = np.zeros(shape, dtype=bool)
+            bm = np.moveaxis(b, npax, -1)
+            for idx in np.ndindex(bm.shape[:-1]):
+                bm[idx] = mask_pattern(rng, shape[npax])
+            b = b.ravel()
+            return b, [rng.choice(mvals) if v else 0 for v in b.tolist()]
+        bad, mask = one_mask(npaxis)
+        # history on the same arrays: 0-2 further calls with another mask and (n-D) possibly another axis
+        more = []
+        allbad = bad.copy()
+        for _ in range(rng.choice([0, 1, 1, 2])):
+            ax2 = None if nd == 1 else rng.randrange(nd)
+            b2, m2 = one_mask(0 if nd == 1 else nd - 1 - ax2)
+            more.append({'mask': m2, 'axis': ax2, 'const': rng.random() < 0.5})
+            allbad &= b2
         if rng.random() < 0.5:
             for k in range(n):
-                if bad[k] and rng.random() < 0.5:
+                if allbad[k] and rng.random() < 0.5:      # garbage only where every call of the history masks it
                     y[k] = rng.choice(GARBAGE)
         x = None
         xorder = None
@@ -317,7 +374,7 @@ class C17(Check):
         if nd == 1 and rng.random() < 0.5:
             entry = 'maskinterp1'
         return {'kind': 'interp', 'shape': shape, 'y': y.tolist(), 'mask': mask, 'mask_dtype': mdt, 'x': x,
-                'xorder': xorder, 'axis': axis, 'const': rng.random() < 0.5, 'entry': entry}
+                'xorder': xorder, 'axis': axis, 'const': rng.random() < 0.5, 'entry': entry, 'more': more}
 
     def gen_aesthetics(self, rng):
         g = np_rng(rng)
@@ -337,7 +394,8 @@ class C17(Check):
             flux = flux.astype(np.float32).astype(np.float64)
             ivar = ivar.astype(np.float32).astype(np.float64)
         return {'kind': 'aesthetics', 'flux': flux.tolist(), 'invvar': ivar.tolist(), 'dtype': dt,
-                'method': rng.choice(['traditional', 'noconst', 'mean', 'nothing'])}
+                'method': rng.choice(['traditional', 'noconst', 'mean', 'nothing']),
+                'more': [rng.choice(['traditional', 'noconst', 'mean', 'nothing']) for _ in range(rng.choice([0, 1, 2]))]}
 
     def gen_median(self, cls, rng):
         g = np_rng(rng)
@@ -364,7 +422,9 @@ class C17(Check):
         dt = 'float64'
         if cls == 'median_1d' and style == 'ties' and rng.random() < 0.3:
             dt = 'int64'
-        return {'kind': 'median', 'shape': shape, 'a': a.tolist(), 'width': w, 'dtype': dt}
+        wmax = 2 * min(shape) - 1                       # widest window one reflection can fill
+        more = [rng.choice([v for v in (1, 3, 5, 7, 9, 11, 13) if v <= wmax]) for _ in range(rng.choice([0, 1, 1]))]
+        return {'kind': 'median', 'shape': shape, 'a': a.tolist(), 'width': w, 'dtype': dt, 'more': more}
 
     def gen_skymask(self, rng):
         g = np_rng(rng)
@@ -418,7 +478,9 @@ class C17(Check):
         ivar[g.uniform(size=(nr, npx)) < 0.05] = 0.0
         return {'kind': 'skymask', 'shape': [nr, npx], 'ivar': ivar.ravel().tolist(), 'mask': mask, 'dtype': dt,
                 'ngrow': ngrow, 'ormask_none': rng.random() < 0.04,
-                'andmask': rng.choice(['none', 'zeros', 'allflags'])}
+                'andmask': rng.choice(['none', 'zeros', 'allflags']),
+                'more': [{'ngrow': rng.choice([0, 1, 2, 3, 5]), 'ormask_none': rng.random() < 0.04}
+                         for _ in range(rng.choice([0, 1, 1, 2]))]}
 
     # ------------------------------------------------------------------ run
     def run(self, case, out):
@@ -427,18 +489,33 @@ class C17(Check):
     # .................................................................. djs_reject
     def run_reject(self, case, out):
         shape = tuple(case['shape'])
-        data = np.array(case['data'], dtype=np.float64).reshape(shape)
-        models = [np.array(m, dtype=np.float64).reshape(shape) for m in case['models']]
-        sigma = case['sigma']
-        if isinstance(sigma, list):
-            sigma = np.array(sigma, dtype=np.float64).reshape(shape)
-        invvar = None if case['invvar'] is None else np.array(case['invvar'], dtype=np.float64).reshape(shape)
-        inmask = None
+        # pristine values: the reference is always computed from these, never from the objects handed to pydl
+        data0 = np.array(case['data'], dtype=np.float64).reshape(shape)
+        models0 = [np.array(m, dtype=np.float64).reshape(shape) for m in case['models']]
+        sigma0 = case['sigma']
+        if isinstance(sigma0, list):
+            sigma0 = np.array(sigma0, dtype=np.float64).reshape(shape)
+        invvar0 = None if case['invvar'] is None else np.array(case['invvar'], dtype=np.float64).reshape(shape)
+        inmask0 = None
         if case['inmask'] is not None:
-            inmask = np.array(case['inmask']).reshape(shape).astype(case['inmask_dtype'])
-        prev = None
+            inmask0 = np.array(case['inmask']).reshape(shape).astype(case['inmask_dtype'])
+        prev0 = None                                     # value of the mask passed as outmask
         if case['outmask'] is not None:
-            prev = np.array(case['outmask']).reshape(shape).astype(bool)
+            prev0 = np.array(case['outmask']).reshape(shape).astype(bool)
+        alias = case.get('alias', 'copy')
+        if alias == 'outmask_is_inmask' and (inmask0 is None or inmask0.dtype != bool):
+            alias = 'reuse'
+        if alias == 'outmask_is_inmask':
+            prev0 = inmask0.copy()
+        # the caller's objects: created once, handed to every call of the history
+        data = data0.copy()
+        models = [m.copy() for m in models0]
+        sigma = sigma0.copy() if isinstance(sigma0, np.ndarray) else sigma0
+        invvar = None if invvar0 is None else invvar0.copy()
+        inmask = None if inmask0 is None else inmask0.copy()
+        prev_obj = None if prev0 is None else prev0.copy()
+        if alias == 'outmask_is_inmask':
+            prev_obj = inmask                            # the very same array as inmask and as outmask
         grow, sticky = case['grow'], case['sticky']
         kw = {}
         for k in ('lower', 'upper', 'maxdev'):
@@ -448,19 +525,30 @@ class C17(Check):
             kw['sigma'] = sigma
         if invvar is not None:
             kw['invvar'] = invvar
-        n = data.size
+        n = data0.size
         any_thr = any_kept = False
-        steps = models + [models[-1]]
-        for step, model in enumerate(steps):
+        steps = list(range(len(models))) + [len(models) - 1]
+        for step, mi in enumerate(steps):
             repeated = step == len(steps) - 1
-            prev_in = None if prev is None else prev.copy()
+            model, model0 = models[mi], models0[mi]
+            prev = prev0
+            if alias == 'copy' or prev_obj is None:
+                prev_in = None if prev0 is None else prev0.copy()
+            else:
+                prev_in = prev_obj                       # the array returned by the previous call (or the initial one) itself
+                out.count('reject_aliased_mask_reuse_steps')
+                if prev_in is inmask:
+                    out.count('reject_outmask_is_inmask_steps')
+            guard = Guard(out, 'reject').add('data', data).add('model', model).add('inmask', inmask) \
+                .add('outmask', prev_in).add('sigma', sigma).add('invvar', invvar)
             mask, qdone = self.M.djs_reject(data, model, outmask=prev_in, inmask=inmask, grow=grow, sticky=sticky, **kw)
             out.count('reject_calls')
+            guard.check(step=step, sticky=sticky, alias=alias)
             mask = np.asarray(mask)
             if not out.expect(mask.shape == shape, 'reject-shape', 'mask shape %r for data shape %r' % (mask.shape, shape)):
                 return
-            ref = R.reject_ref(data, model, inmask=inmask, outmask=prev, sigma=sigma,
-                               invvar=None if sigma is not None else invvar,
+            ref = R.reject_ref(data0, model0, inmask=inmask0, outmask=prev0, sigma=sigma0,
+                               invvar=None if sigma0 is not None else invvar0,
                                lower=case['lower'], upper=case['upper'], maxdev=case['maxdev'], grow=grow, sticky=sticky)
             got = ~(mask != 0)
             und = ref['und']
@@ -474,14 +562,14 @@ class C17(Check):
                        where=np.argwhere(m_ex)[:10], **det)
             m_thr = miss & ref['thr']
             out.expect(not m_thr.any(), 'reject-limit-kept', 'point whose residual is beyond a limit is not rejected',
-                       where=np.argwhere(m_thr)[:10], resid=(data - model)[m_thr][:10], **det)
+                       where=np.argwhere(m_thr)[:10], resid=(data0 - model0)[m_thr][:10], **det)
             m_gr = miss & ~ref['excluded'] & ~ref['thr']
             out.expect(not m_gr.any(), 'reject-grow-missing',
                        'neighbour within grow=%d of a point rejected by a limit is not rejected' % grow,
                        where=np.argwhere(m_gr)[:10], seeds=np.argwhere(ref['thr'])[:20], **det)
             out.expect(not extra.any(), 'reject-extra',
                        'point rejected although it is not excluded, within all limits and not within grow of a rejected point',
-                       where=np.argwhere(extra)[:10], resid=(data - model)[extra][:10], seeds=np.argwhere(ref['thr'])[:20], **det)
+                       where=np.argwhere(extra)[:10], resid=(data0 - model0)[extra][:10], seeds=np.argwhere(ref['thr'])[:20], **det)
             prev_eff = np.ones(shape, dtype=bool) if prev is None else (prev != 0)
             unchanged = bool(np.array_equal(mask != 0, prev_eff))
             out.expect(bool(qdone) == unchanged, 'reject-qdone',
@@ -495,15 +583,15 @@ class C17(Check):
             out.count('reject_kept_points', int((~ref['must'] & ~und).sum()))
             out.count('reject_excluded_points', ref['n_excluded'])
             out.count('reject_grown_points', ref['n_grown'])
-            if grow > 0 and ref['n_thr'] and data.ndim == 1:
+            if grow > 0 and ref['n_thr'] and data0.ndim == 1:
                 seeds = np.nonzero(ref['thr'])[0]
                 if n > 2 * grow and (seeds.min() < grow or seeds.max() > n - 1 - grow):
                     out.count('reject_grow_clipped_at_end')
             if ref['n_near']:
                 out.count('reject_near_limit_undecided', ref['n_near'])
-            out.count('reject_near_limit_decided', self._near_count(data, model, sigma, invvar, case) - ref['n_near'])
-            if invvar is not None and sigma is None:
-                out.count('reject_invvar_zero_points', int((invvar == 0).sum()))
+            out.count('reject_near_limit_decided', self._near_count(data0, model0, sigma0, invvar0, case) - ref['n_near'])
+            if invvar0 is not None and sigma0 is None:
+                out.count('reject_invvar_zero_points', int((invvar0 == 0).sum()))
             if prev is not None:
                 prej = ~(prev != 0)
                 if sticky and prej.any():
@@ -512,7 +600,8 @@ class C17(Check):
                     out.count('reject_nonsticky_readmitted_points', int((prej & ~ref['must'] & ~und).sum()))
             any_thr = any_thr or ref['n_thr'] > 0
             any_kept = any_kept or bool((~ref['must'] & ~und).any())
-            prev = mask
+            prev0 = np.array(mask, copy=True)            # value of the returned mask (reference for the next step)
+            prev_obj = mask                              # the returned object itself (handed back when alias != 'copy')
         out.nontrivial = any_thr and any_kept
 
     @staticmethod
@@ -542,22 +631,43 @@ class C17(Check):
     def run_interp(self, case, out):
         shape = tuple(case['shape'])
         nd = len(shape)
-        y = np.array(case['y'], dtype=np.float64).reshape(shape)
-        mask = np.array(case['mask']).reshape(shape).astype(case['mask_dtype'])
-        x = None if case['x'] is None else np.array(case['x'], dtype=np.float64).reshape(shape)
-        axis = case['axis']
+        # pristine values for the reference; y / x are the caller's arrays and are handed to EVERY call of the history
+        y0 = np.array(case['y'], dtype=np.float64).reshape(shape)
+        x0 = None if case['x'] is None else np.array(case['x'], dtype=np.float64).reshape(shape)
+        y = y0.copy()
+        x = None if x0 is None else x0.copy()
+        steps = [{'mask': case['mask'], 'axis': case['axis'], 'const': case['const']}] + list(case.get('more', []))
+        nontrivial = False
+        for step, st in enumerate(steps):
+            m0 = np.array(st['mask']).reshape(shape).astype(case['mask_dtype'])
+            if step:
+                out.count('interp_history_steps_on_same_array')
+                if nd > 1:
+                    out.count('interp_history_steps_nd')
+            if not self._interp_step(case, out, y, y0, x, x0, m0, st['axis'], st['const'], step):
+                return
+            nontrivial = nontrivial or out.nontrivial
+        out.nontrivial = nontrivial
+
+    def _interp_step(self, case, out, y, y_in, x, x_in, m_in, axis, const, step):
+        """one call on the caller's arrays y / x with a fresh mask object; oracle from the pristine y_in / x_in"""
+        shape = y_in.shape
+        nd = len(shape)
+        mask = m_in.copy()
         npaxis = 0 if nd == 1 else nd - 1 - axis
-        y_in, m_in = y.copy(), mask.copy()
+        guard = Guard(out, 'interp').add('yval', y).add('mask', mask).add('xval', x)
         if case['entry'] == 'maskinterp1':
-            got = self.I.djs_maskinterp1(y, mask, xval=x, const=case['const'])
+            got = self.I.djs_maskinterp1(y, mask, xval=x, const=const)
         elif nd == 1:
-            got = self.I.djs_maskinterp(y, mask, xval=x, const=case['const'])
+            got = self.I.djs_maskinterp(y, mask, xval=x, const=const)
         else:
-            got = self.I.djs_maskinterp(y, mask, xval=x, axis=axis, const=case['const'])
+            got = self.I.djs_maskinterp(y, mask, xval=x, axis=axis, const=const)
             out.count('interp_nd_calls')
+        guard.check(step=step, axis=axis)
+        x = x_in
         got = np.asarray(got)
         if not out.expect(got.shape == shape, 'interp-shape', 'result shape %r for input %r' % (got.shape, shape)):
-            return
+            return False
         got = got.astype(np.float64)
         exp, scale, bad = R.maskinterp_ref(y_in, m_in, x, npaxis)
         good = ~bad
@@ -590,21 +700,21 @@ class C17(Check):
             return (a == b) | (np.isnan(a) & np.isnan(b))
         sel = kindarr == 'g'
         ok = got[sel] == y_in[sel]            # by value: -0.0 == 0.0 (the one-good-sample broadcast is 0 + value)
-        out.expect(ok.all(), 'interp-good-changed', 'an unmasked sample was changed',
-                   where=np.argwhere(sel)[~ok][:10], got=got[sel][~ok][:10], was=y_in[sel][~ok][:10], axis=axis)
+        out.expect(ok.all(), 'interp-good-changed', 'an unmasked sample of the result differs from the caller\'s original data',
+                   where=np.argwhere(sel)[~ok][:10], got=got[sel][~ok][:10], was=y_in[sel][~ok][:10], axis=axis, step=step)
         out.count('interp_good_samples_compared', int(sel.sum()))
         sel = kindarr == 'a'
         ok = same(got[sel], y_in[sel])
         out.expect(ok.all(), 'interp-allbad', 'line without any good sample was not returned unchanged',
-                   where=np.argwhere(sel)[~ok][:10], axis=axis)
+                   where=np.argwhere(sel)[~ok][:10], axis=axis, step=step)
         sel = kindarr == 's'
         ok = got[sel] == exp[sel]
         out.expect(ok.all(), 'interp-single-good', 'line with one good sample is not that value everywhere',
-                   where=np.argwhere(sel)[~ok][:10], got=got[sel][~ok][:10], exp=exp[sel][~ok][:10], axis=axis)
+                   where=np.argwhere(sel)[~ok][:10], got=got[sel][~ok][:10], exp=exp[sel][~ok][:10], axis=axis, step=step)
         sel = kindarr == 'e'
         ok = got[sel] == exp[sel]
         out.expect(ok.all(), 'interp-ends', 'masked sample beyond the outermost good sample is not held at that sample\'s value',
-                   where=np.argwhere(sel)[~ok][:10], got=got[sel][~ok][:10], exp=exp[sel][~ok][:10], axis=axis, x=case['xorder'])
+                   where=np.argwhere(sel)[~ok][:10], got=got[sel][~ok][:10], exp=exp[sel][~ok][:10], axis=axis, x=case['xorder'], step=step)
         out.count('interp_end_samples', int(sel.sum()))
         sel = kindarr == 'i'
         with np.errstate(all='ignore'):
@@ -612,7 +722,7 @@ class C17(Check):
             ok = err <= 1e-9 * scale[sel] + 1e-300
         out.expect(ok.all(), 'interp-interior',
                    'masked sample is not the linear interpolation between its nearest good neighbours',
-                   where=np.argwhere(sel)[~ok][:10], got=got[sel][~ok][:10], exp=exp[sel][~ok][:10], axis=axis, x=case['xorder'])
+                   where=np.argwhere(sel)[~ok][:10], got=got[sel][~ok][:10], exp=exp[sel][~ok][:10], axis=axis, x=case['xorder'], step=step)
         out.count('interp_interior_samples', int(sel.sum()))
         out.nontrivial = bool(sel.any())
         if sel.any():
@@ -621,96 +731,120 @@ class C17(Check):
             out.info['max_rel_err'] = float(np.nanmax(rel))
             if ok.all():
                 self._max_rel = max(self._max_rel, out.info['max_rel_err'])
+        return True
 
     # .................................................................. aesthetics
     def run_aesthetics(self, case, out):
         dt = case['dtype']
-        flux = np.array(case['flux'], dtype=np.float64).astype(dt)
-        ivar = np.array(case['invvar'], dtype=np.float64).astype(dt)
-        f_in = flux.copy()
-        got = np.asarray(self.S2.aesthetics(flux, ivar, method=case['method']))
-        if not out.expect(got.shape == f_in.shape, 'aesthetics-shape', 'result shape %r' % (got.shape,)):
-            return
-        good = ivar != 0
-        a = got[good].astype(np.float64)
+        f_in = np.array(case['flux'], dtype=np.float64).astype(dt)         # pristine
+        iv_in = np.array(case['invvar'], dtype=np.float64).astype(dt)
+        flux, ivar = f_in.copy(), iv_in.copy()                               # the caller's arrays, used by every call
+        good = iv_in != 0
         b = f_in[good].astype(np.float64)
-        ok = a == b
-        out.expect(ok.all(), 'aesthetics-good-changed',
-                   'method %s changed flux at a pixel whose inverse variance is not zero' % case['method'],
-                   where=np.nonzero(good)[0][~ok][:10], got=a[~ok][:10], was=b[~ok][:10])
-        out.count('aesthetics_good_pixels_compared', int(good.sum()))
-        out.count('aesthetics_bad_pixels', int((~good).sum()))
-        out.count('aesthetics_' + case['method'])
+        for step, method in enumerate([case['method']] + list(case.get('more', []))):
+            # the property allows flux to change where invvar == 0, so only the other pixels of the caller's flux are guarded
+            guard = Guard(out, 'aesthetics').add('flux', flux, only=good).add('invvar', ivar)
+            got = np.asarray(self.S2.aesthetics(flux, ivar, method=method))
+            guard.check(step=step, method=method)
+            if step:
+                out.count('aesthetics_history_steps_on_same_array')
+            if not out.expect(got.shape == f_in.shape, 'aesthetics-shape', 'result shape %r' % (got.shape,)):
+                return
+            a = got[good].astype(np.float64)
+            ok = a == b
+            out.expect(ok.all(), 'aesthetics-good-changed',
+                       'method %s: flux at a pixel whose inverse variance is not zero differs from the caller\'s original flux' % method,
+                       where=np.nonzero(good)[0][~ok][:10], got=a[~ok][:10], was=b[~ok][:10], step=step)
+            out.count('aesthetics_good_pixels_compared', int(good.sum()))
+            out.count('aesthetics_bad_pixels', int((~good).sum()))
+            out.count('aesthetics_' + method)
         out.nontrivial = bool(good.any() and (~good).any())
 
     # .................................................................. djs_median
     def run_median(self, case, out):
         shape = tuple(case['shape'])
-        a = np.array(case['a'], dtype=np.float64).reshape(shape).astype(case['dtype'])
-        w = case['width']
-        a_in = a.copy()
-        got = np.asarray(self.M.djs_median(a, width=w, boundary='reflect'))
-        if not out.expect(got.shape == shape, 'median-shape', 'result shape %r for input %r' % (got.shape, shape)):
-            return
-        exp = R.median_reflect_ref(a_in, w)
-        ok = got == exp
-        out.expect(ok.all(), 'median-reflect', 'running median with symmetric reflection differs from the brute-force window median',
-                   width=w, shape=list(shape), where=np.argwhere(~ok)[:10], got=got[~ok][:10], exp=exp[~ok][:10])
-        h = w // 2
-        nedge = 0
-        if h:
-            if a.ndim == 1:
-                nedge = min(shape[0], 2 * h)
-            else:
-                inner = max(0, shape[0] - 2 * h) * max(0, shape[1] - 2 * h)
-                nedge = a.size - inner
-                out.count('median_2d_cases')
-        out.count('median_reflected_windows', nedge)
-        out.nontrivial = bool((exp != a_in).any())
+        a_in = np.array(case['a'], dtype=np.float64).reshape(shape).astype(case['dtype'])     # pristine
+        a = a_in.copy()                                                                        # the caller's array
+        nontrivial = False
+        for step, w in enumerate([case['width']] + list(case.get('more', []))):
+            guard = Guard(out, 'median').add('array', a)
+            got = np.asarray(self.M.djs_median(a, width=w, boundary='reflect'))
+            guard.check(step=step, width=w)
+            if step:
+                out.count('median_history_steps_on_same_array')
+            if not out.expect(got.shape == shape, 'median-shape', 'result shape %r for input %r' % (got.shape, shape)):
+                return
+            exp = R.median_reflect_ref(a_in, w)
+            ok = got == exp
+            out.expect(ok.all(), 'median-reflect',
+                       'running median with symmetric reflection differs from the brute-force window median of the caller\'s original array',
+                       width=w, shape=list(shape), step=step, where=np.argwhere(~ok)[:10], got=got[~ok][:10], exp=exp[~ok][:10])
+            h = w // 2
+            nedge = 0
+            if h:
+                if a_in.ndim == 1:
+                    nedge = min(shape[0], 2 * h)
+                else:
+                    inner = max(0, shape[0] - 2 * h) * max(0, shape[1] - 2 * h)
+                    nedge = a_in.size - inner
+                    out.count('median_2d_cases')
+            out.count('median_reflected_windows', nedge)
+            nontrivial = nontrivial or bool((exp != a_in).any())
+        out.nontrivial = nontrivial
 
     # .................................................................. skymask
     def run_skymask(self, case, out):
         nr, npx = case['shape']
-        ivar = np.array(case['ivar'], dtype=np.float64).reshape(nr, npx)
+        iv_in = np.array(case['ivar'], dtype=np.float64).reshape(nr, npx)   # pristine
         dt = case['dtype']
-        om = np.array(case['mask'], dtype=dt).reshape(nr, npx)
-        assert om.tolist() == case['mask']
+        om_in = np.array(case['mask'], dtype=dt).reshape(nr, npx)
+        assert om_in.tolist() == case['mask']
         andmask = None
         if case['andmask'] == 'zeros':
             andmask = np.zeros((nr, npx), dtype=dt)
         elif case['andmask'] == 'allflags':
             andmask = np.full((nr, npx), (1 << BADSKYCHI) | (1 << REDMONSTER) if dt != 'int16' else 1, dtype=dt)
-        ngrow = case['ngrow']
-        iv_in = ivar.copy()
-        if case['ormask_none']:
-            got = np.asarray(self.S1.skymask(ivar, andmask, None, ngrow=ngrow))
-            out.expect(got.shape == iv_in.shape and np.array_equal(got, iv_in), 'skymask-none',
-                       'ormask=None must leave the inverse variance unchanged')
-            out.count('skymask_ormask_none')
-            return
-        got = np.asarray(self.S1.skymask(ivar, andmask, om, ngrow=ngrow))
-        if dt in ('int16', 'int32', 'int64'):
-            out.count('skymask_signed_dtype_cases')
-        out.count('skymask_dtype_' + dt)
-        if not out.expect(got.shape == (nr, npx), 'skymask-shape', 'result shape %r' % (got.shape,)):
-            return
-        exp, flagged, dil = R.skymask_ref(iv_in, case['mask'], (BADSKYCHI, REDMONSTER), ngrow)
-        got = got.astype(np.float64)
-        z = dil & (got != 0)
-        out.expect(not z.any(), 'skymask-not-zeroed',
-                   'inverse variance within ngrow=%d pixels of a BADSKYCHI/REDMONSTER pixel is not zero' % ngrow,
-                   where=np.argwhere(z)[:10], flagged=np.argwhere(flagged)[:20], dtype=dt)
-        t = ~dil & (got != iv_in)
-        out.expect(not t.any(), 'skymask-touched',
-                   'inverse variance farther than ngrow=%d pixels (along the row) from every flagged pixel was changed' % ngrow,
-                   where=np.argwhere(t)[:10], flagged=np.argwhere(flagged)[:20], got=got[t][:10], was=iv_in[t][:10], dtype=dt)
-        out.count('skymask_flagged_pixels', int(flagged.sum()))
-        out.count('skymask_grown_pixels', int((dil & ~flagged).sum()))
-        if flagged.any() and (flagged[:, 0].any() or flagged[:, -1].any()) and ngrow > 0 and nr > 1:
-            out.count('skymask_row_end_flags')
+        ivar, om = iv_in.copy(), om_in.copy()                                # the caller's arrays, used by every call
         F = (1 << BADSKYCHI) | (1 << REDMONSTER)
-        out.count('skymask_distractor_only_pixels', sum(1 for row in case['mask'] for v in row if v != 0 and not (v & F)))
-        out.nontrivial = bool(flagged.any() and (~dil).any())
+        nontrivial = False
+        steps = [{'ngrow': case['ngrow'], 'ormask_none': case['ormask_none']}] + list(case.get('more', []))
+        for step, st in enumerate(steps):
+            ngrow = st['ngrow']
+            guard = Guard(out, 'skymask').add('invvar', ivar).add('ormask', om).add('andmask', andmask)
+            if step:
+                out.count('skymask_history_steps_on_same_array')
+            if st.get('ormask_none'):
+                got = np.asarray(self.S1.skymask(ivar, andmask, None, ngrow=ngrow))
+                guard.check(step=step, ngrow=ngrow)
+                out.expect(got.shape == iv_in.shape and np.array_equal(got, iv_in), 'skymask-none',
+                           'ormask=None must leave the inverse variance unchanged', step=step)
+                out.count('skymask_ormask_none')
+                continue
+            got = np.asarray(self.S1.skymask(ivar, andmask, om, ngrow=ngrow))
+            guard.check(step=step, ngrow=ngrow, dtype=dt)
+            if dt in ('int16', 'int32', 'int64'):
+                out.count('skymask_signed_dtype_cases')
+            out.count('skymask_dtype_' + dt)
+            if not out.expect(got.shape == (nr, npx), 'skymask-shape', 'result shape %r' % (got.shape,)):
+                return
+            exp, flagged, dil = R.skymask_ref(iv_in, case['mask'], (BADSKYCHI, REDMONSTER), ngrow)
+            got = got.astype(np.float64)
+            z = dil & (got != 0)
+            out.expect(not z.any(), 'skymask-not-zeroed',
+                       'inverse variance within ngrow=%d pixels of a BADSKYCHI/REDMONSTER pixel is not zero' % ngrow,
+                       where=np.argwhere(z)[:10], flagged=np.argwhere(flagged)[:20], dtype=dt, step=step)
+            t = ~dil & (got != iv_in)
+            out.expect(not t.any(), 'skymask-touched',
+                       'inverse variance farther than ngrow=%d pixels (along the row) from every flagged pixel differs from the '
+                       'caller\'s original inverse variance' % ngrow,
+                       where=np.argwhere(t)[:10], flagged=np.argwhere(flagged)[:20], got=got[t][:10], was=iv_in[t][:10], dtype=dt, step=step)
+            out.count('skymask_flagged_pixels', int(flagged.sum()))
+            out.count('skymask_grown_pixels', int((dil & ~flagged).sum()))
+            if flagged.any() and (flagged[:, 0].any() or flagged[:, -1].any()) and ngrow > 0 and nr > 1:
+                out.count('skymask_row_end_flags')
+            out.count('skymask_distractor_only_pixels', sum(1 for row in case['mask'] for v in row if v != 0 and not (v & F)))
+            nontrivial = nontrivial or bool(flagged.any() and (~dil).any())
+        out.nontrivial = nontrivial
 
     # ------------------------------------------------------------ evidence
     def summarise(self, case):
